@@ -269,28 +269,42 @@ def run(prog: Program, res: Result, tier: str) -> None:
 
     # ---- R4 count formula --------------------------------------------------------------------------------
     ph = prog.func("sigpyproc.io.sigproc", "parse_header")
-    asg = [s for s in body_walk(ph.node) if isinstance(s, ast.Assign) and norm(s.targets[0]) == "header['nsamples']"]
+    import re as _re
+    from ..normalform import normal_form
+    from ..dataflow import flow_of as _flow_of
+    nfp = normal_form(ph)
+    fl = _flow_of(ph)
+    tells = sorted((c for c in calls_in_body(ph.node) if (dotted(c.func) or "").endswith(".tell")), key=lambda c: (c.lineno, c.col_offset))
+    ends = [c for c in calls_in_body(ph.node) if (dotted(c.func) or "").endswith(".seek") and len(c.args) == 2 and norm(c.args[0]) == "0"
+            and norm(c.args[1]) in ("2", "os.SEEK_END", "io.SEEK_END")]
+    if len(tells) != 2:
+        raise AnalysisError(f"parse_header takes {len(tells)} stream positions (2 expected: end of header, end of file)")
+    positions = len(ends) == 1 and fl.cfg.dominates(fl.cfg.node_for(tells[0]), fl.cfg.node_for(ends[0])) and \
+        fl.cfg.dominates(fl.cfg.node_for(ends[0]), fl.cfg.node_for(tells[1]))
+    recv = dotted(tells[0].func.value)
+    T0, T1 = f"{recv}.tell#0()", f"{recv}.tell#1()"
+    asg = [e for e in nfp.effects if e.kind == "set" and e.target.endswith("['nsamples']")]
     key = "parse_header:nsamples"
-    want = "8 * int(header['datalen']) // int(header['nbits']) // int(header['nchans'])"
-    if len(asg) == 1 and norm(asg[0].value) == want:
-        res.ok("R4", ph, asg[0], "nsamples = 8*datalen // nbits // nchans (inverse of the writer's packed layout, floor)", key=key)
-    elif len(asg) == 1:
-        from ..poly import PolyEnv
-        v = asg[0].value
-        floor = all(isinstance(b.op, ast.FloorDiv) for b in ast.walk(v) if isinstance(b, ast.BinOp) and isinstance(b.op, (ast.Div, ast.FloorDiv)))
-        names = {n for n in ("datalen", "nbits", "nchans") if n in norm(v)}
-        if floor and names == {"datalen", "nbits", "nchans"} and "8" in norm(v):
-            res.ok("R4", ph, asg[0], "nsamples is a floor of 8*datalen over nbits*nchans", key=key)
-        else:
-            res.bad("R4", ph, asg[0], f"sample count formula `{norm(v)}` is not floor(8*datalen/nbits/nchans)", key=key)
-    else:
+    if not asg:
         raise AnalysisError("parse_header no longer assigns header['nsamples']")
-    dl = [s for s in body_walk(ph.node) if isinstance(s, ast.Assign) and norm(s.targets[0]) == "header['datalen']"]
-    key = "parse_header:datalen"
-    if len(dl) == 1 and norm(dl[0].value) == "int(header['filelen']) - int(header['hdrlen'])":
-        res.ok("R4", ph, dl[0], "datalen = file length - header length", key=key)
+    H = r"\$v\d+"
+    bits8 = _re.escape(f"-8*{T0} + 8*{T1}")
+    forms = (rf"FloorDiv\(FloorDiv\({bits8}, int\({H}\['nbits'\]\)\), int\({H}\['nchans'\]\)\)",
+             rf"FloorDiv\(FloorDiv\({bits8}, int\({H}\['nchans'\]\)\), int\({H}\['nbits'\]\)\)",
+             rf"FloorDiv\({bits8}, int\({H}\['nbits'\]\)\*int\({H}\['nchans'\]\)\)",
+             rf"FloorDiv\({bits8}, int\({H}\['nchans'\]\)\*int\({H}\['nbits'\]\)\)")
+    if positions and len(asg) == 1 and any(_re.fullmatch(f, asg[0].value) for f in forms):
+        res.ok("R4", ph, ph.node, "nsamples = 8*(file length - header length) // nbits // nchans (inverse of the writer's packed layout, floor)", key=key,
+               construct="nsamples")
     else:
-        res.bad("R4", ph, dl[0] if dl else ph.node, "datalen is not filelen - hdrlen", key=key, construct="datalen")
+        res.bad("R4", ph, ph.node, f"sample count formula `{asg[0].value}` is not floor(8*datalen/nbits/nchans) with datalen = end of file - end of header",
+                key=key, construct="nsamples")
+    dl = [e for e in nfp.effects if e.kind == "set" and e.target.endswith("['datalen']")]
+    key = "parse_header:datalen"
+    if positions and len(dl) == 1 and dl[0].value == f"-1*{T0} + {T1}":
+        res.ok("R4", ph, ph.node, "datalen = file length - header length", key=key, construct="datalen")
+    else:
+        res.bad("R4", ph, ph.node, "datalen is not filelen - hdrlen", key=key, construct="datalen")
 
     # ---- R5 .inf table ---------------------------------------------------------------------------------------
     table = prog.literal_or_none("sigpyproc.params", "presto_inf") if hasattr(prog, "literal_or_none") else None
